@@ -4,15 +4,15 @@
 set -e
 WT="$1"; shift
 NAME=$(basename "$WT")
-H=/tmp/mut/harness-$NAME
+H=/tmp/seedwork/harness-$NAME
 mkdir -p "$H"
 rsync -a --exclude target /verif/harness/ "$H/"
 sed -i "s#/repo/#$WT/#g" "$H/Cargo.toml"
 # a private copy of the Lean tree (with its build output): a change that edits a table regenerates Garnish/Gen/*.lean, which
 # must not happen in /verif/lean while other checks or proof work use it
-L=/tmp/mut/lean-$NAME
+L=/tmp/seedwork/lean-$NAME
 rsync -a --delete /verif/lean/ "$L/"
-export VERIF_REPO="$WT" VERIF_HARNESS="$H" VERIF_OUT=/tmp/mut/out-$NAME VERIF_WORK=/tmp/mut/work-$NAME VERIF_LEAN="$L"
+export VERIF_REPO="$WT" VERIF_HARNESS="$H" VERIF_OUT=/tmp/seedwork/out-$NAME VERIF_WORK=/tmp/seedwork/work-$NAME VERIF_LEAN="$L"
 mkdir -p "$VERIF_OUT" "$VERIF_WORK"
 for P in "$@"; do
   (cd /verif && ./check "$P" 2>/dev/null | grep -E "VIOLATION|KNOWN-FINDING|^C[0-9]+:" | cut -c1-220) || true
